@@ -7,6 +7,7 @@ BOUNDS = {"crash_points": "before every filesystem action of the write (one-shot
                           "data write after a symbolic torn prefix",
           "data": "any length, <= 2 chunks (thorough 3); declared size absent / equal / any other value (symbolic) so the mmap path, "
                   "its overflow fallback and its shortfall truncation are all inside",
+          "failing_calls": "additionally (family failing-*) one rename / mkdir / link of the write fails (EXDEV, EIO) and the process is killed at any later point",
           "cache_state": "cold, warm (directories exist), or the address already present",
           "also": "the invariant is asserted at normal return too",
           "outside": "power loss with unflushed page cache (no fsync model); kernel crash during rename"}
@@ -45,7 +46,7 @@ def content_invariant(ctx, scn, tag, what):
     return ok_all
 
 
-def crash_write(ctx, entry, keyed, size_mode, nchunks, warm, api):
+def crash_write(ctx, entry, keyed, size_mode, nchunks, warm, api, failing=None):
     scn = ctx.new_scn(api=api)
     D = scn.blob("D")
     data = scn.whole(D)
@@ -60,6 +61,11 @@ def crash_write(ctx, entry, keyed, size_mode, nchunks, warm, api):
         if scn.write_hash(data).kind != "ok":
             return
     scn.arm_crash()
+    if failing:
+        # additionally one call of this kind fails during the write (e.g. the publishing rename: tmp/ on another
+        # filesystem); whatever the library does instead must be just as atomic
+        tag += ":failing-" + failing
+        scn.arm_fault(kinds=["CrossesDevices", "Other"], short_write=False, actions=[failing])
     outs = []
     if entry == "oneshot":
         outs.append(scn.write("k", data) if keyed else scn.write_hash(data))
@@ -108,4 +114,9 @@ def tasks(tier, flavours):
                         continue
                     out.append(dict(module="C03", family="crash_write", flavour=fl,
                                     params=dict(entry="streamed", keyed=keyed, size_mode=size_mode, nchunks=n, warm="cold" if n == 1 else "warm", api=api)))
+            for failing in ("rename",) if tier == "quick" else ("rename", "mkdir", "link"):
+                if tier == "quick" and fl != "sync" and not keyed:
+                    continue
+                out.append(dict(module="C03", family="crash_write", flavour=fl,
+                                params=dict(entry="oneshot", keyed=keyed, size_mode="none", nchunks=1, warm="warm", api=api, failing=failing)))
     return out
